@@ -40,6 +40,8 @@ import Csvq.Lemmas.Fixed
 import Csvq.Lemmas.JsonTable
 import Csvq.Lemmas.EncFacts
 import Csvq.Lemmas.Encoding
+import Csvq.Lemmas.JsonPath
+import Csvq.Lemmas.JsonLex
 namespace Csvq.C02
 open Csvq.Csv
 
@@ -934,7 +936,143 @@ example :
   intro r _ v _
   cases v <;> simp [AtomOK]
 
+/-! ### characters: scan ∘ print
+
+  `json_scan_print`  for every well-formed value `j` (`PrintableV`: every string — keys too — is one the scanner
+  can delimit, i.e. under `Escape` it does not end in a backslash (F27), and is not itself the text of a JSON
+  array / object (F73, the encoder would embed it); every number is a literal in one of the spellings of
+  RFC 8259 — sign, integer part without leading zero, fraction, exponent with `e`/`E` and sign (`NumLit`) — and
+  a fixed point of `canon`), for all three escape types: the characters the compact encoder prints, followed
+  by any line breaks, scan to exactly the tokens of `j`.  With it the table round trips hold from text to
+  text:  `json_table_roundtrip_text`, `jsonl_table_roundtrip_text` (JSON Lines with LF or CR LF). -/
+
+theorem json_scan_print (t : Esc) (canon : List Char → Option (List Char)) (j : JS) (hp : PrintableV t canon j)
+    (w : List Char) (hw : ∀ c ∈ w, c = '\n' ∨ c = '\r') :
+    lex canon (encode t canon j ++ w) = .ok (toksS j) := by
+  rw [encode_printable t canon j hp]
+  exact lex_encS_ws t canon j hp w hw
+
+/-- the texts of a table, as far as the character level is concerned -/
+def TextOK (t : Esc) (canon : List Char → Option (List Char)) (tb : Json.Table) : Prop :=
+  (∀ k ∈ tb.header, StrOK t k) ∧ ∀ r ∈ tb.rows, ∀ v ∈ r, PrintableV t canon (toStructure v)
+
+theorem printable_rowObj (t : Esc) (canon : List Char → Option (List Char)) (h : List (List Char)) (r : List JVal)
+    (hk : ∀ k ∈ h, StrOK t k) (hv : ∀ v ∈ r, PrintableV t canon (toStructure v)) :
+    PrintableV t canon (rowObj h r) := by
+  simp only [rowObj, PrintableV]
+  induction h generalizing r with
+  | nil => simp [PrintableM]
+  | cons k ks ih =>
+    cases r with
+    | nil => simp [PrintableM]
+    | cons v vs =>
+      simp only [List.map_cons, List.zip_cons_cons, PrintableM]
+      exact ⟨hk k (by simp), hv v (by simp), ih vs (fun x hx => hk x (by simp [hx])) (fun x hx => hv x (by simp [hx]))⟩
+
+theorem printable_tableJS (t : Esc) (canon : List Char → Option (List Char)) (tb : Json.Table) (h : TextOK t canon tb) :
+    PrintableV t canon (tableJS tb) := by
+  obtain ⟨hk, hv⟩ := h
+  simp only [tableJS, PrintableV]
+  generalize tb.rows = rows at hv
+  induction rows with
+  | nil => simp [PrintableL]
+  | cons r rs ih =>
+    simp only [List.map_cons, PrintableL]
+    exact ⟨printable_rowObj t canon tb.header r hk (hv r (by simp)), ih (fun x hx => hv x (by simp [hx]))⟩
+
+/-- **Table round trip, JSON, text to text**: what `encodeJson` writes (compact), the loader reads back as
+    `canonTable`. -/
+theorem json_table_roundtrip_text (t : Esc) (canon : List Char → Option (List Char)) (tb : Json.Table)
+    (hs : JsonSpellable canon tb) (ht : TextOK t canon tb) (w : List Char) (hw : ∀ c ∈ w, c = '\n' ∨ c = '\r') :
+    decodeJson canon (encodeJson t canon none tb ++ w) = .ok (canonTable tb) := by
+  have hl := json_scan_print t canon (tableJS tb) (printable_tableJS t canon tb ht) w hw
+  simp only [encodeJson, decodeJson]
+  simp only [tableJS] at hl
+  rw [hl]
+  exact json_table_roundtrip canon tb hs
+
 end J
+
+/-! ## JSON: column names as paths into nested objects
+
+  Model: Csvq.Model.JsonPath (`parsePath`, `addPath`, `buildRow` = lib/json `Path.Parse`,
+  `addPathValueToRowStructure`, `ConvertRecordValueToJsonStructure`; the driver's jenc op writes through
+  them, compared with the real encoder on generated path names).  The loader does not flatten: a loaded
+  table has the top-level keys as columns (Csvq.Model.Json.tableOf) — what is proved is that the nested record
+  carries the table's record:
+    `json_paths_roundtrip`   column paths none of which is a prefix of another (in particular distinct), values
+                             that are not objects: the record is written, and `flatten` of it is exactly the
+                             set of (path, value) pairs of the table's record; every value is found by
+                             `getPath` at its column's path;
+    `json_flat_names`        names without '.' and backslash are single segments: `encodeJsonP` is the flat
+                             `encodeJson` of the theorems above;
+    `parse_path_segments`    a parsed path has at least one segment.
+  Outside the predicate (confirmed on the real encoder by the jenc stream):
+    `json_path_prefix_refused`      `a`, `a.b`: refused ("cannot be a member of a value that is not an object");
+    `json_path_prefix_duplicate`    `a.b`, `a`: written with the key `a` twice — `getPath` (and every JSON reader
+                                    that takes the first or the last member) finds one of them only;
+    `json_path_duplicate_name`      `a`, `a`: the key twice;
+    `json_path_syntax`              `a..b`, `.a`, `a.`: refused; `a\.b` is the one segment `a.b`, but `\.b` is the
+                                    two segments `\` and `b` (a backslash that starts a segment escapes nothing). -/
+
+namespace P
+open Csvq.Json
+
+/-- **Nested records carry the table's record.** -/
+theorem json_paths_roundtrip (ps : List (List (List Char))) (vs : List JVal) (hlen : ps.length = vs.length)
+    (hne : ∀ p ∈ ps, p ≠ []) (hpf : ps.Pairwise Unrelated) :
+    ∃ ms, rowObjP ps vs = some (.obj ms) ∧
+      (∀ q w, (q, w) ∈ flattenMembers ms ↔ (q, w) ∈ ps.zip (vs.map toStructure)) ∧
+      (∀ q w, (q, w) ∈ ps.zip (vs.map toStructure) → getPath q ms = some w) := by
+  have hvs : ∀ v ∈ vs.map toStructure, isObj v = false := by
+    intro v hv
+    obtain ⟨x, _, rfl⟩ := List.mem_map.mp hv
+    exact toStructure_not_obj x
+  obtain ⟨ms, h1, h2, h3⟩ := buildRow_spec ps (vs.map toStructure) [] (by simpa using hlen) hne hvs
+    (by simp [wfMembers]) hpf (by simp [flattenMembers])
+  have h3' : ∀ q w, (q, w) ∈ flattenMembers ms ↔ (q, w) ∈ ps.zip (vs.map toStructure) := by
+    intro q w; rw [h3]; simp [flattenMembers]
+  refine ⟨ms, by simp [rowObjP, h1], h3', ?_⟩
+  intro q w hm
+  exact getPath_of_mem q ms w h2 (hvs w (List.of_mem_zip hm).2) ((h3' q w).mpr hm)
+
+theorem parse_path_segments (s : List Char) (segs : List (List Char)) (h : parsePath s = some segs) : segs ≠ [] := by
+  cases s with
+  | nil => simp only [parsePath] at h; injection h with h; subst h; simp
+  | cons c rest => exact parseMember_ne _ _ segs h
+
+/-- **Flat names**: the path-aware writer is the flat writer of `json_table_roundtrip`. -/
+theorem json_flat_names (t : Esc) (canon : List Char → Option (List Char)) (pretty : Option LB) (lb : LB)
+    (tb : Json.Table) (hn : ∀ s ∈ tb.header, FlatName s) (hr : ∀ r ∈ tb.rows, r.length = tb.header.length) :
+    encodeJsonP t canon pretty tb = some (encodeJson t canon pretty tb) ∧
+    encodeJsonlP t canon lb tb = some (encodeJsonl t canon lb tb) := by
+  constructor
+  · simp only [encodeJsonP, mapMOpt_parsePath_flat tb.header hn, mapMOpt_rowObjP_flat tb.header tb.rows hr, encodeJson]
+    cases pretty <;> rfl
+  · simp only [encodeJsonlP, mapMOpt_parsePath_flat tb.header hn, mapMOpt_rowObjP_flat tb.header tb.rows hr, encodeJsonl,
+      List.map_map]
+    rfl
+
+theorem json_path_prefix_refused :
+    rowObjP [[['a']], [['a'], ['b']]] [.int ['1'], .int ['2']] = none := by rfl
+
+theorem json_path_prefix_duplicate :
+    rowObjP [[['a'], ['b']], [['a']]] [.int ['1'], .int ['2']]
+      = some (.obj [(['a'], .obj [(['b'], .num ['1'])]), (['a'], .num ['2'])]) ∧
+    getPath [['a']] [(['a'], .obj [(['b'], .num ['1'])]), (['a'], .num ['2'])] = some (.obj [(['b'], .num ['1'])]) := by
+  exact ⟨rfl, rfl⟩
+
+theorem json_path_duplicate_name :
+    rowObjP [[['a']], [['a']]] [.int ['1'], .int ['2']] = some (.obj [(['a'], .num ['1']), (['a'], .num ['2'])]) := by rfl
+
+theorem json_path_syntax :
+    parsePath ['a', '.', '.', 'b'] = none ∧ parsePath ['.', 'a'] = none ∧ parsePath ['a', '.'] = none ∧
+    parsePath ['a', '\\', '.', 'b'] = some [['a', '.', 'b']] ∧
+    parsePath ['\\', '.', 'b'] = some [['\\'], ['b']] ∧
+    parsePath [] = some [[]] := by
+  refine ⟨by decide, by decide, by decide, by decide, by decide, rfl⟩
+
+end P
 
 /-! ## transcoding
 
